@@ -59,8 +59,18 @@ static int c18_encode(c18_job *J,buf_t *out){
   ogg_stream_clear(&os); vorbis_block_clear(&vb); vorbis_dsp_clear(&vd); vorbis_comment_clear(&vc); vorbis_info_clear(&vi);
   return 0;
 }
+/* uninitialised automatic storage: the dead stack below the caller is filled with a pattern before the job runs (VERIF_STACK_POISON:
+   1 = +inf doubles, 2 = -4.0, 3 = 0xA5 bytes); a result that depends on what an alloca or an automatic array held before it was
+   written shows up as a difference between the patterns */
+static __attribute__((noinline)) void c18_stack_poison(int kind){
+  volatile double a[49152]; long i;
+  if(kind==3){ volatile unsigned char *b=(volatile unsigned char*)a; for(i=0;i<(long)sizeof(a);i++)b[i]=0xA5; }
+  else{ double v=kind==1?INFINITY:(kind==2?-4.0:0.0); for(i=0;i<49152;i++)a[i]=v; }
+  __asm__ volatile("" :: "r"(a) : "memory");
+}
 static void *c18_work(void *arg){
   c18_job *J=arg; buf_t out={0,0,0};
+  { const char *sp=getenv("VERIF_STACK_POISON"); if(sp&&atoi(sp)>0)c18_stack_poison(atoi(sp)); }
   J->hash=14695981039346656037ULL; J->pcmhash=14695981039346656037ULL; J->pcm=0; J->bytes=0;
   J->rc=c18_encode(J,&out);
   if(J->rc){ free(out.p); return NULL; }
